@@ -24,6 +24,7 @@ import Driver.ProfileOps
 import Driver.ValidateOps
 import Driver.ExportOps
 import Driver.ProtoOps
+import Driver.CompResultOps
 open Lean Driver
 
 def dispatch (op : String) (j : Json) : Except String Json :=
@@ -46,6 +47,7 @@ def dispatch (op : String) (j : Json) : Except String Json :=
   | "validate" => validateOp op j
   | "export" => exportOp op j
   | "proto" => protoOp op j
+  | "compresult" => compResultOp op j
   | _ => .error s!"unknown op family in '{op}'"
 
 def handle (line : String) : String :=
